@@ -231,8 +231,11 @@ func (p *vhPhys) Snapshot(t *testing.T) *vhPhys {
 	q := vhNewPhys(t)
 	for _, k := range p.AllKeys() {
 		e, err := p.inner.Get(context.Background(), k)
-		if err != nil || e == nil {
+		if err != nil {
 			t.Fatalf("snapshot get %s: %v", k, err)
+		}
+		if e == nil {
+			continue // a background worker deleted the key between the listing and the read
 		}
 		v := make([]byte, len(e.Value))
 		copy(v, e.Value)
